@@ -177,6 +177,39 @@ type c10Case struct {
 	Table gen.TableSpec `json:"table"`
 }
 
+// c10Canary is run right after a render that returned an error: on a small well-formed table, for
+// every format, Render must still return exactly what RenderTo writes (a failed render must leave
+// nothing behind that a later Render picks up).
+func c10Canary(c *Ctx, cs *c10Case, after string) bool {
+	mk := func() tabular.Table {
+		t := tabular.New()
+		t.AddHeaders("k1", "k2")
+		t.AddRowItems("v", 2)
+		return t
+	}
+	pairs := []struct {
+		name   string
+		render func(tabular.Table) (string, error)
+		to     func(tabular.Table) (string, error)
+	}{
+		{"csv", func(t tabular.Table) (string, error) { return csv.Wrap(t).Render() }, func(t tabular.Table) (string, error) { return viaTo(csv.Wrap(t).RenderTo) }},
+		{"html", func(t tabular.Table) (string, error) { return html.Wrap(t).Render() }, func(t tabular.Table) (string, error) { return viaTo(html.Wrap(t).RenderTo) }},
+		{"json", func(t tabular.Table) (string, error) { return json.Wrap(t).Render() }, func(t tabular.Table) (string, error) { return viaTo(json.Wrap(t).RenderTo) }},
+		{"markdown", func(t tabular.Table) (string, error) { return markdown.Wrap(t).Render() }, func(t tabular.Table) (string, error) { return viaTo(markdown.Wrap(t).RenderTo) }},
+		{"text", func(t tabular.Table) (string, error) { return texttable.Wrap(t).Render() }, func(t tabular.Table) (string, error) { return viaTo(texttable.Wrap(t).RenderTo) }},
+	}
+	for _, p := range pairs {
+		a, ea := p.render(mk())
+		b, eb := p.to(mk())
+		c.Rec.Count("render_vs_renderto_probes_after_a_failed_render", 1)
+		if (ea != nil) != (eb != nil) || a != b {
+			c.Rec.Violate("render-differs-from-renderto-after-a-failed-render:"+p.name, fmt.Sprintf("right after a %s render returned an error, %s Render() of a small well-formed table gives %q (err %v) but RenderTo writes %q (err %v)", after, p.name, a, ea, b, eb), cs)
+			return false
+		}
+	}
+	return true
+}
+
 func c10Run(c *Ctx, i int, r *gen.R) {
 	spec := r.Table(gen.TableOpts{MaxCols: 4, MaxRows: 5, ZeroHeaderOK: true, MinCols: 0,
 		Item: func(r *gen.R) gen.ItemSpec {
@@ -185,9 +218,24 @@ func c10Run(c *Ctx, i int, r *gen.R) {
 				return r.AnyItem(c10Fam, 4, 1)
 			case 1:
 				return c04Item(r)
+			case 2:
+				if r.Chance(1, 3) {
+					return gen.ItemSpec{K: gen.Pick(r, []string{"nan", "inf", "complex"}), Flt: 1, Num: 2} // a render that fails part-way (JSON)
+				}
 			}
 			return r.TextItem(c10Fam, 5)
 		}})
+	if r.Chance(1, 3) && spec.NCols() > 0 {
+		// headers every renderer accepts, so that JSON gets as far as the rows
+		spec.HasHeader = true
+		spec.Header = nil
+		for k := 0; k < spec.NCols(); k++ {
+			spec.Header = append(spec.Header, gen.StrItem(fmt.Sprintf("key%d", k+1)))
+		}
+		if spec.HeaderAt > len(spec.Rows) {
+			spec.HeaderAt = len(spec.Rows)
+		}
+	}
 	cs := &c10Case{Table: spec}
 	c.Case = cs
 	paths := c10Paths()
@@ -211,6 +259,9 @@ func c10Run(c *Ctx, i int, r *gen.R) {
 			}
 			return true
 		}
+		if refErr != nil && !c10Canary(c, cs, tg.format) {
+			return
+		}
 		for pi, p := range paths {
 			for ri, rt := range tg.routes {
 				if pi == 0 && ri == 0 {
@@ -218,6 +269,9 @@ func c10Run(c *Ctx, i int, r *gen.R) {
 				}
 				out, err := rt.f(fresh(p))
 				if !compare(fmt.Sprintf("%s on a table created by %s", rt.name, p.name), out, err) {
+					return
+				}
+				if err != nil && pi < 2 && !c10Canary(c, cs, tg.format) {
 					return
 				}
 			}
@@ -248,7 +302,7 @@ func init() {
 		ID:    "C10",
 		Level: "exploration",
 		Rule: "one random table (0-4 columns x 0-5 rows, ragged/zero-cell rows, separators, header anywhere, every row-building route, hostile texts, occasionally size-declaring or non-string items) per case; its construction history is replayed on a table from every creation path (tabular.New, csv/html/json/markdown/texttable.New, auto.New(style) for every listed style) and rendered to every target format (csv, html, json, markdown, text under the default and every registered decoration, including six application-registered ones with mixed-case, upper-cased-built-in, dotted and spaced names) through every route (package Render/RenderTo, Wrap().Render/RenderTo, auto.Render/RenderTo/Wrap with case variants, trailing sections and texttable. prefixes) plus 6 random wrapper nestings of depth 1-3 per format; each render uses a freshly built table. " +
-			"Every output and error status must equal the reference route (tabular.New + direct Wrap + Render). Distinct = distinct (shape, texts); non-trivial = at least one column and one body row.",
+			"Every output and error status must equal the reference route (tabular.New + direct Wrap + Render); right after any render that returned an error, Render and RenderTo of a small well-formed table are compared in all five formats. Distinct = distinct (shape, texts); non-trivial = at least one column and one body row.",
 		Assumptions: []string{
 			"equality only: which bytes are right is the business of C03-C08",
 			"error messages are not compared, only whether there is an error",
